@@ -159,7 +159,10 @@ def h_single(B, cls="EOF", layout="2d", codec="identity", rot=None, p=3, flags=N
         model = M.rotate(model, **rot)
     from .C14 import _new_like
 
-    Xn = _with_attrs(_new_like(B, X, "xn")) if layout not in ("multiindex", "stacked-sample") else None
+    Xn = _with_attrs(_new_like(B, X, "xn")) if layout not in ("multiindex", "stacked-sample", "stacked-sample-ym") else None
+    if layout == "stacked-sample-ym":
+        Xn = xr.DataArray(B.array((1, 2, p), "xn", cplx), dims=("year", "month", "x"), coords={"year": [2010], "month": [6, 5], "x": XS[:p]}, name="v_xn").stack(time=("year", "month"))
+        Xn = _with_attrs(Xn)
     if layout == "stacked-sample":
         Xn = xr.DataArray(B.array((1, 2, p), "xn", cplx), dims=("t1", "t2", "x"), coords={"t1": ["z"], "t2": [7, 8], "x": XS[:p]}, name="v_xn").stack(time=("t1", "t2"))
         Xn = _with_attrs(Xn)
@@ -178,10 +181,13 @@ def h_single(B, cls="EOF", layout="2d", codec="identity", rot=None, p=3, flags=N
     B.check("parameters equal", _params_equal(model.get_params(), m2.get_params()), f"{model.get_params()} vs {m2.get_params()}")
     B.eq("components equal", m2.components(), model.components())
     B.eq("scores equal", m2.scores(), model.scores())
+    for d in model.scores().dims:
+        i1, i2 = model.scores().indexes[d], m2.scores().indexes[d]
+        B.check(f"scores: index of {d} identical (incl. MultiIndex level order)", list(getattr(i1, "names", [])) == list(getattr(i2, "names", [])) and i1.equals(i2), f"{getattr(i1, 'names', None)} vs {getattr(i2, 'names', None)}")
     if cls not in ("ExtendedEOF", "HilbertEOF"):
         if Xn is not None:
             B.eq("transform(X_new) equal", m2.transform(Xn), model.transform(Xn))
-    if layout not in ("multiindex", "stacked-sample"):
+    if layout not in ("multiindex", "stacked-sample", "stacked-sample-ym"):
         S = xr.DataArray(B.array((2, 2), "S", cplx), dims=("time", "mode"), coords={"time": [100, 101], "mode": [1, 2]})
         B.eq("inverse_transform(S) equal", m2.inverse_transform(S), model.inverse_transform(S))
     B.eq("explained variance equal", m2.explained_variance(), model.explained_variance())
@@ -237,7 +243,7 @@ def configs(tier):
     codecs = ["identity", "netcdf-attrs", "json", "placeholders+netcdf-attrs"]
     for codec in codecs:
         add("h_single", f"EOF|2d|{codec}", cls="EOF", codec=codec)
-    for layout in ("3d", "dataset", "list", "multiindex", "stacked-sample"):
+    for layout in ("3d", "dataset", "list", "multiindex", "stacked-sample", "stacked-sample-ym"):
         add("h_single", f"EOF|{layout}|netcdf-attrs", cls="EOF", layout=layout, p=4 if layout in ("3d", "dataset", "list") else 2, codec="netcdf-attrs")
         add("h_single", f"EOF|{layout}|json", cls="EOF", layout=layout, p=4 if layout in ("3d", "dataset", "list") else 2, codec="json")
     add("h_single", "EOF|2d|standardize|coslat-off|netcdf-attrs|after-transform", cls="EOF", codec="netcdf-attrs", flags={"standardize": True}, when="after-transform")
